@@ -152,7 +152,12 @@ pub fn gen_bulk_ptype(rng: &mut Rng, near: u32) -> PType {
         3 => {
             t.def = PDef::Variant(
                 (0..rng.range(200, 700))
-                    .map(|i| PVariant { name: String::new(), fields: vec![], index: i as u8, docs: vec![] })
+                    .map(|i| PVariant {
+                        name: String::new(),
+                        fields: if rng.permille(100) { vec![fld(rng)] } else { vec![] },
+                        index: i as u8,
+                        docs: vec![],
+                    })
                     .collect(),
             )
         }
@@ -193,6 +198,17 @@ fn micro_edit(rng: &mut Rng, cfg: &TabCfg, near: u32, t: &mut PType) {
             }
         }
         _ => {}
+    }
+    // the same path, one segment spelled as a raw identifier (or not)
+    if !t.path.is_empty() && rng.permille(60) {
+        let k = rng.usize_below(t.path.len());
+        let seg = &mut t.path[k];
+        if let Some(rest) = seg.strip_prefix("r#") {
+            *seg = rest.to_string();
+        } else {
+            seg.insert_str(0, "r#");
+        }
+        return;
     }
     // a variant of one string that differs only in white space
     if rng.permille(120) {
@@ -359,7 +375,8 @@ pub fn generate(rng: &mut Rng) -> TabScenario {
     // in the middle of the script, then the script goes on (duplicates, get,
     // self-references and finish on a large table)
     if rng.permille(30) {
-        let n = *rng.pick(&[200u32, 300, 300, 1100, 1100, 1100, 20000]);
+        // (rarely past 2^16 values: the width an index type might be narrowed to)
+        let n = if rng.permille(25) { 80_000 } else { *rng.pick(&[200u32, 300, 300, 1100, 1100, 1100, 20000]) };
         let at = rng.usize_below(ops.len() + 1);
         ops.insert(at, (0, TabOp::RegisterBurst(n)));
         if rng.permille(500) {
@@ -583,12 +600,13 @@ fn run_builder(scn: &TabScenario, mask: Mask, res: &mut TabResult) -> Check {
                     register(&mut b, &mut model, &v, "burst")?;
                 }
                 crate::core::probe_max("max.builder_table_entries", model.v.len() as u64);
-                for t in [256usize, 1000, 16384] {
+                for t in [256usize, 1000, 16384, 65536] {
                     if model.v.len() > t {
                         probe(match t {
                             256 => "reach.builder_table_above_256",
                             1000 => "reach.builder_table_above_1000",
-                            _ => "reach.builder_table_above_16384",
+                            16384 => "reach.builder_table_above_16384",
+                            _ => "reach.builder_table_above_65536",
                         });
                     }
                 }
